@@ -133,6 +133,10 @@ func roundTrip09(dir string, idx int, enc int, s *specs.Spec) back09 {
 	_ = os.MkdirAll(dir, 0o755)
 	cache, _ := cdi.NewCache(cdi.WithSpecDirs(dir), cdi.WithAutoRefresh(false))
 	ext := []string{".json", ".yaml", ""}[enc]
+	if enc == 2 {
+		// any name that ends neither in .json nor in .yaml is a YAML file with .yaml appended
+		ext = []string{"", ".yml", "", ".txt", "", ".JSON", ".yaml.bak", "", ".json5", ".Yaml"}[idx%10]
+	}
 	name := fmt.Sprintf("s%d%s", idx, ext)
 	path := filepath.Join(dir, name)
 	if enc == 2 {
